@@ -38,12 +38,14 @@ def main(tier):
         "witness validity, retention-grid arithmetic (values of an external data structure).")
     chk.trusted = ["rustc MIR debug names and def-use origins", "Rust lexer for PS-1"]
     chk.rule("PS-1", "sibling pool code is a consistent renaming", floor=250)
+    chk.rule("PS-2", "Ironwood code equals its Orchard sibling up to the pool renaming", floor=90)
     chk.rule("PS-3", "pool-tagged arguments bind the same pool's parameters", floor=10)
     chk.rule("BIND", "array results of pool-ordered functions are bound to matching pools", floor=1)
     chk.rule("COHERE", "per-pool tree calls and closures use one pool's operands", floor=12)
     chk.rule("RETAIN", "the anchor-retention policy reaches every pool's update", floor=4)
     chk.rule("control", "positive controls", floor=1)
     ps_rules.ps1(chk, FILES)
+    ps_rules.ps2(chk, FILES)
     w = zf.World(extract.facts_dir("all"), ["zcash_client_backend", "zcash_client_sqlite",
                                             "zcash_primitives"])
 
@@ -197,7 +199,61 @@ def cohere(chk, w, pb):
                  % sorted(ps_rules.POOLS[x] for x in found), pb.span.loc())
 
 
+def _arg_leaves(o, acc=None, depth=0):
+    acc = acc if acc is not None else set()
+    if not isinstance(o, tuple) or depth > 40:
+        return acc
+    if o[0] == "arg":
+        acc.add(o[1])
+    for x in o[1:]:
+        if isinstance(x, tuple):
+            _arg_leaves(x, acc, depth + 1)
+        elif isinstance(x, list):
+            for y in x:
+                _arg_leaves(y, acc, depth + 1)
+    return acc
+
+
+def retain_source(chk, w, pb):
+    """the policy handed to ll::put_blocks by a WalletWrite::put_blocks implementation is a
+    function of the wallet alone (its parameters, configuration and stored migrations): it must
+    not depend on the batch being stored (from_state / blocks), or the boundaries of some batches
+    would go unretained"""
+    n = 0
+    for f in sorted(w.fns.values(), key=lambda f: f.p):
+        if f.is_closure() or "::tests::" in f.p or "::testing" in f.p or f.id == pb.id:
+            continue
+        if not f.p.endswith("::put_blocks"):
+            continue
+        du = defuse.DefUse(f.body)
+        for bb, t in f.body.calls():
+            if f.body.blocks[bb].cleanup or t.callee.indirect is not None or t.callee.target_id() != pb.id:
+                continue
+            try:
+                j = pb.argnames.index("anchor_retention")
+            except ValueError:
+                return
+            o = du.origin(t.args[j])
+            leaves = _arg_leaves(o)
+            batch = sorted(f.argnames[i] for i in leaves if i < len(f.argnames) and
+                           f.argnames[i] in ("from_state", "blocks", "block", "scanned_blocks"))
+            filt = re.findall(r"\b(filter|take_if|xor|zip|and_then|then_some|then)\(", defuse.show(o))
+            n += 1
+            if not batch and "local" not in repr(o)[:0] and not [x for x in filt if x != "then"]:
+                chk.ok("RETAIN", "%s: the policy given to ll::put_blocks depends on the wallet only (%s)"
+                       % (f.p.split(" as ")[0].lstrip("<")[:60], defuse.show(o)[:80]), sample=True)
+            else:
+                chk.fail("RETAIN", "%s/policy-source" % f.p, "the anchor-retention policy handed to "
+                         "ll::put_blocks depends on the batch being stored (%s%s): boundaries inside "
+                         "some batches would not be retained" % (batch, (", via " + ",".join(filt)) if filt else ""),
+                         t.span.loc())
+    if n == 0:
+        chk.fail("RETAIN", "policy-source/missing", "no WalletWrite::put_blocks implementation calling "
+                 "ll::wallet::put_blocks was found")
+
+
 def retain(chk, w, pb):
+    retain_source(chk, w, pb)
     # index of the anchor_retention parameter of put_blocks
     try:
         ai = pb.argnames.index("anchor_retention")
